@@ -141,7 +141,7 @@ def uses_env_stubs(h):
     return False
 
 
-def playback(root, h, features, pid, tier_timeout):
+def playback(root, h, features, pid, tier_timeout, descs=None):
     """Re-run one failed harness with concrete playback, then execute the generated unit test natively
     (cargo kani playback) against the real code in the scratch copy. -> (test_code, reproduced, output)"""
     cmd = kani_cmd(features, [h.fq()], None, tier_timeout,
@@ -151,10 +151,21 @@ def playback(root, h, features, pid, tier_timeout):
     if not m:
         return None, None, out[-3000:]
     test_code = m.group(1)
-    return (test_code,) + run_playback(root, h, features, test_code)
+    return (test_code,) + run_playback(root, h, features, test_code, descs)
 
 
-def run_playback(root, h, features, test_code):
+def _matches_obligation(out, descs):
+    """the native run must die with (one of) the failed obligation's own message(s); a failure of the
+    playback machinery itself (e.g. unconsumed concrete values because stubs are not applied
+    natively) is NOT a reproduction"""
+    for dsc in descs or []:
+        msg = (dsc or "").strip().strip('"').strip()
+        if msg and msg in out:
+            return True
+    return False
+
+
+def run_playback(root, h, features, test_code, descs=None):
     rel, f = plan.MODULES[h.module]
     cp = root.parent / ("%s_playback.rs" % h.module)
     cp.write_text(Path(f).read_text() + "\n" + test_code + "\n")
@@ -170,7 +181,9 @@ def run_playback(root, h, features, test_code):
     rc, out, _ = run(cmd, root, timeout=900)
     src.write_text(s)
     if re.search(r"test result: FAILED", out) and tname in out:
-        return True, out[-4000:]
+        if descs is None or _matches_obligation(out, descs):
+            return True, out[-4000:]
+        return None, "native run failed, but not with the failed obligation's message (playback artefact, e.g. stubs are not applied natively):\n" + out[-3000:]
     if re.search(r"test result: ok\. 1 passed", out):
         return False, out[-2000:]
     return None, out[-3000:]
@@ -347,7 +360,7 @@ def _do_check(pid, tier, only, want_playback, P, sd, seed, t0):
             elif want_playback:
                 root = sd / feats / "repo"
                 log("[driver] obligation failed in %s; asking Kani for a counterexample and replaying it on the real code" % h.id)
-                test_code, reproduced, pout = playback(root, h, feats, pid, timeout_s)
+                test_code, reproduced, pout = playback(root, h, feats, pid, timeout_s, [f["description"] for f in r["failed"] if f["kind"] == "violation"])
             path = rd / ("%s-%s.json" % (pid, h.id))
             doc = {
                 "property": pid, "kind": "kani", "harness": h.id, "harness_fq": h.fq(), "module": h.module, "features": feats,
@@ -470,7 +483,7 @@ def do_replay(path, keep):
         if not hs:
             log("harness %s no longer exists" % doc["harness"])
             return 2
-        rep, out = run_playback(root, hs[0], feats, doc["counterexample_test"])
+        rep, out = run_playback(root, hs[0], feats, doc["counterexample_test"], [f.get("description") for f in doc.get("failed_obligations", [])])
         log(out[-3000:])
         if rep:
             log("REPRODUCED property=%s harness=%s" % (pid, doc["harness"]))
